@@ -440,3 +440,8 @@ func init() {
 	addMutant(Mutant{Name: "c26-enum-goname-unchecked", Property: "C26", File: "gogen/goenums.go",
 		Old: "\t\t\t\tif other, ok := goNames[goName]; ok {\n\t\t\t\t\treturn nil, fmt.Errorf(", New: "\t\t\t\tif other, ok := goNames[goName]; ok && other == \"\" {\n\t\t\t\t\treturn nil, fmt.Errorf(", Expect: "genGoEnumeratedTypes:value-name"})
 }
+
+func init() {
+	addMutant(Mutant{Name: "c28-oneof-members-not-uniquified", Property: "C28", File: "protogen/protogen.go",
+		Old: "\t\tfor _, f := range d.oneofs {\n\t\t\tf.Name = genutil.MakeNameUnique(f.Name, args.definedFieldNames)\n\t\t}\n", New: "", Expect: "oneof-members#"})
+}
